@@ -603,7 +603,10 @@ class WorldFamily(Family):
         ref = Reference(b, T)
         if not T.arith:
             for k in b.links:
-                ref.key(k)
+                try:
+                    ref.key(k)
+                except (ValueError, ZeroDivisionError):
+                    pass   # the operator itself rejects some element of the full arrays: no graph
         table = sx_table(b, T)
         ops, fns = ref.tables()
         self._aux = ("world", [list(b.shape), table, sx_view(case["view"]), case["target"],
